@@ -41,7 +41,7 @@ def answerPca (fs : List (String × String)) : String :=
       let scale0 := if scaleC < lamMax then lamMax else scaleC
       let scale := if scale0 == 0 then 1 else scale0
       let xmax := maxAbsM X.get
-      let xscale := if xmax < 1 then 1 else xmax
+      let xscale := if xmax == 0 then 1 else xmax      -- relative: no absolute floor (data in tiny units are judged as strictly)
       -- 1. routines called directly
       let cmean := cmpMat (vecAsMat mean.get) (vecAsMat μD.get) (εtight * xscale)
       let ccov := cmpMat cov.get CU.get (εrel * scale)
@@ -61,7 +61,8 @@ def answerPca (fs : List (String × String)) : String :=
       -- 6. embedding = centred samples × P  (model `project` on the returned pair)
       let Ymodel := DMat.ofFn (embedRows P.get mu.get X.get)
       let ymax := maxAbsM Ymodel.get
-      let cy := cmpMat Y.get Ymodel.get (εtight * (if ymax < 1 then 1 else ymax) * xscale)
+      let pmaxv := maxAbsM P.get
+      let cy := cmpMat Y.get Ymodel.get (εtight * xscale * (if pmaxv < 1 then 1 else pmaxv) * ((D : Rat) + 1))
       -- 7. uncorrelated columns with variances lam: (1/N) YᵀY = diag lam, column means 0
       let YD := Y
       let covY : Mat d d Rat := fun a b => sumFin N (fun i => YD.get i a * YD.get i b) / (N : Rat)
